@@ -63,18 +63,21 @@ func (s *Service) ModifyHPByRatio(data info.ModifyHPByRatio, isDamage bool) erro
 	attr := t.attributes
 
 	oldRatio := attr.HPRatio
+	newRatio := oldRatio
 
 	switch data.RatioType {
 	case model.ModifyHPRatioType_CURRENT_HP:
-		attr.HPRatio += data.Ratio * attr.HPRatio
+		newRatio += data.Ratio * oldRatio
 	case model.ModifyHPRatioType_MAX_HP:
-		attr.HPRatio += data.Ratio
+		newRatio += data.Ratio
 	default:
 		return fmt.Errorf("unknown ratio type: %v", data.RatioType)
 	}
 
+	// the stored ratio is only written once the final value is known so that the emitted
+	// HPChange reports the ratio before this call as its old value
 	stats := s.Stats(data.Target)
-	if stats.CurrentHP() < data.Floor {
+	if newRatio*stats.MaxHP() < data.Floor {
 		return s.SetHP(info.ModifyAttribute{
 			Key:    data.Key,
 			Target: data.Target,
@@ -84,9 +87,12 @@ func (s *Service) ModifyHPByRatio(data info.ModifyHPByRatio, isDamage bool) erro
 	}
 
 	// TODO: unsure if there are limits on min and max
-	if attr.HPRatio > 1 {
-		attr.HPRatio = 1.0
+	if newRatio > 1 {
+		newRatio = 1.0
+	} else if newRatio < 0 {
+		newRatio = 0
 	}
+	attr.HPRatio = newRatio
 
 	return s.emitHPChangeEvents(
 		data.Key, data.Target, data.Source, oldRatio, attr.HPRatio, stats.MaxHP(), isDamage)
